@@ -727,6 +727,23 @@ pub fn run_point(root: &Path, p: &Point) -> PointResult {
     if ev.iter().any(|e| matches!(e.call, "flock" | "lockf" | "fcntl_lock")) {
         add("C20", "c20:lock", format!("a locking primitive was used at {}", desc));
     }
+    if p.op == OpKind::Get {
+        // a lookup makes at most two file-open attempts per cache directory
+        let mut levels: Vec<String> = Vec::new();
+        if p.writer.is_some() {
+            levels.push("W".into());
+        }
+        for i in 0..p.readers.len() {
+            levels.push(level_name(i));
+        }
+        for l in &levels {
+            let prefix = format!("{}/{}/", root_s, l);
+            let n = ev.iter().filter(|e| e.call == "open" && e.idx != u32::MAX && e.path.starts_with(&prefix)).count();
+            if n > 2 {
+                add("C20", "c20:too-many-opens", format!("a lookup made {} file-open attempts in cache directory {} (at most 2 allowed) at {}", n, l, desc));
+            }
+        }
+    }
     // cleanup
     crate::shim::bypass(|| {
         if let Ok(rd) = std::fs::read_dir(root) {
